@@ -86,6 +86,10 @@ TEMPLATES = {
     'nf-power':    ([R('p', -10, 1e4)], lambda v: ['-w', W, '--excitation-pulse=1', '--nf-power=' + v['p'], '--near-field=1,1,1,1,1,1,1,1,2']),
     'scale':       ([R('s', -10, 10), I('t', -1, 3)], lambda v: ['-w', W, '--excitation-pulse=1', '--geo-scale=%s,%s' % (v['s'], v['t'])] + BASE),
     'translate':   ([R('x', -1e3, 1e3), I('t', -1, 3)], lambda v: ['-w', W, '--excitation-pulse=1', '--geo-translate=1,%s,0,0,%s' % (v['x'], v['t'])] + BASE),
+    'transform-keys': ([R('k1', -3, 3), R('k2', -3, 3)], lambda v: ['-w', W, '--excitation-pulse=1', '--geo-rotate=%s,0,90,0' % v['k1'],
+                                                                    '--geo-translate=%s,0,0,5' % v['k2']] + BASE),
+    'rotate-keys': ([R('k1', -3, 3), R('k2', -3, 3)], lambda v: ['-w', W, '--excitation-pulse=1', '--geo-rotate=%s,0,90,0' % v['k1'],
+                                                                 '--geo-rotate=%s,30,0,0' % v['k2']] + BASE),
     'taper':       ([I('k', -1, 4), R('mn', -1, 2), R('mx', -1, 2)],
                     lambda v: ['-w', '4,0,0,0,7,0,0,0.5', '--excitation-pulse=1', '--taper-wire=1,%s,%s,%s' % (v['k'], v['mn'], v['mx'])] + BASE),
     'arc':         ([I('n', -1, 5), R('R', -1, 2), R('a2', -400, 800), R('r', -1, 1)],
